@@ -604,10 +604,11 @@ const (
 	LandTiny
 	LandTiesPositive
 	LandNearlyEqual
-	numLands
+	numLands // the kinds below are opt-in (named in WorldSpec.Landscapes), not part of "all"
+	LandSpeciesZero
 )
 
-var landNames = []string{"const", "zero", "uniform", "heavy", "dominant", "ties", "structural", "distinct", "huge", "oscillate", "tiny", "ties-positive", "nearly-equal"}
+var landNames = []string{"const", "zero", "uniform", "heavy", "dominant", "ties", "structural", "distinct", "huge", "oscillate", "tiny", "ties-positive", "nearly-equal", "", "species-zero"}
 
 // Landscape assigns finite, non-negative fitness deterministically from (seed, generation, index, genome shape).
 type Landscape struct {
@@ -680,6 +681,13 @@ func (l *Landscape) Fitness(gen, idx int, g *genetics.Genome) float64 {
 func (w *World) AssignFitness() {
 	for i, o := range w.Pop.Organisms {
 		o.Fitness = w.Land.Fitness(w.Gen, i, o.Genotype)
+		if w.Land.Kind == LandSpeciesZero {
+			// whole species score exactly zero in some generations (a task on which a whole niche fails), the rest is positive
+			o.Fitness = 1 + 4*NewSubRNG(Mix(w.Land.Seed, uint64(w.Gen), uint64(i))).Float()
+			if o.Species != nil && Mix(w.Land.Seed, uint64(w.Gen), uint64(o.Species.Id), 77)%3 == 0 {
+				o.Fitness = 0
+			}
+		}
 	}
 }
 
